@@ -172,7 +172,11 @@ func runC14(c *Ctx) {
 					stateStore = st
 				}
 			}
-			if ci, ok := in.(ssa.CallInstruction); ok && calleeName(ci.Common()) == "time.(*Timer).Stop" {
+		}
+	}
+	for _, f := range closureFuncs(setState, 2) {
+		for _, ci := range allCalls(f) {
+			if calleeName(ci.Common()) == "time.(*Timer).Stop" {
 				stopSeen = true
 			}
 		}
